@@ -129,12 +129,24 @@ type verifMemBackend struct {
 	release chan struct{} // closed to let blocked Writes proceed
 	block   atomic.Bool
 	waiting atomic.Int64 // goroutines currently blocked inside Write
+	blockCtx atomic.Bool // one-shot: the next deadline-carrying Write waits for ctx.Done() and returns ctx.Err()
 	fail    func(path string) bool
 }
 
 func (m *verifMemBackend) Write(ctx context.Context, path string, data []byte) error {
 	// only flushes that carry a deadline block (flush workers, Close, the age flusher); the
 	// synchronous flushes of a writer / FlushAll caller use the caller's context
+	if _, hasDeadline := ctx.Deadline(); hasDeadline && m.blockCtx.CompareAndSwap(true, false) {
+		m.waiting.Add(1)
+		select {
+		case <-ctx.Done():
+			m.waiting.Add(-1)
+			return ctx.Err()
+		case <-time.After(60 * time.Second):
+			m.waiting.Add(-1)
+			return context.DeadlineExceeded
+		}
+	}
 	if _, hasDeadline := ctx.Deadline(); hasDeadline && m.block.Load() {
 		select {
 		case m.entered <- struct{}{}:
@@ -535,6 +547,9 @@ func TestVerifBuffer(t *testing.T) {
 			o.H = int64(radixSkipThreshold)
 		case "sig":
 			o.Sig = getColumnSignature(verifToTyped(c.Batch).Data)
+		case "key":
+			d := verifToTyped(c.Batch).Data
+			o.Sig = bufferSchemaKey(getColumnSignature(d), d)
 		case "merge":
 			func() {
 				defer func() {
@@ -642,6 +657,48 @@ func TestVerifBuffer(t *testing.T) {
 			}
 			o.Files, o.Dup = files, dup
 			o.Stats = map[string]int64{"queued": verifQueued.Load(), "errors": ab.totalErrors.Load(), "churn": ab.totalSchemaChurnExceeded.Load()}
+		case "race":
+			// forced schedule through the lock-released I/O window of flushBufferLocked: batches[0] is
+			// buffered; writer B (batches[1], another schema) starts the schema-change flush and is parked
+			// inside storage.Write; writer A (batches[2]) writes meanwhile and installs a fresh buffer; B is
+			// released; then FlushAll and Close
+			st := &verifMemBackend{entered: make(chan struct{}, 1), release: make(chan struct{})}
+			ab := verifNewBuffer(c.Cfg, st)
+			if err := verifWrite1(ab, &vOp{Op: "write", Key: c.Key, Batch: &c.Batches[0]}); err != nil {
+				t.Fatalf("race: first write: %v", err)
+			}
+			st.block.Store(true)
+			bdone := make(chan error, 1)
+			go func() {
+				ctx, cancel := context.WithTimeout(context.Background(), 120*time.Second) // a deadline: this flush parks
+				defer cancel()
+				db, meas := verifSplitKey(c.Key)
+				bdone <- ab.WriteTypedColumnarDirect(ctx, db, meas, verifToTyped(&c.Batches[1]), verifRows(&c.Batches[1]))
+			}()
+			deadline := time.Now().Add(60 * time.Second)
+			for st.waiting.Load() == 0 {
+				if time.Now().After(deadline) {
+					t.Fatal("race: writer B never reached storage.Write")
+				}
+				time.Sleep(200 * time.Microsecond)
+			}
+			if err := verifWrite1(ab, &vOp{Op: "write", Key: c.Key, Batch: &c.Batches[2]}); err != nil {
+				o.Rejected = append(o.Rejected, 2)
+			}
+			st.block.Store(false)
+			close(st.release)
+			if err := <-bdone; err != nil {
+				o.Rejected = append(o.Rejected, 1)
+			}
+			_ = ab.FlushAll(context.Background())
+			verifWaitIdle(t)
+			ab.Close()
+			files, dup, derr := verifDecodeWrites(st.snapshot())
+			if derr != nil {
+				t.Fatal(derr)
+			}
+			o.Files, o.Dup = files, dup
+			o.Stats = map[string]int64{"errors": ab.totalErrors.Load()}
 		case "closew":
 			// one worker blocked inside storage.Write on the first size-triggered flush, the
 			// remaining batches queued, then Close while the worker is still blocked
